@@ -100,6 +100,7 @@ func checkC20(c *vk.Ctx) {
 		prm.Name = "persist-rm"
 		prm.Versions = []byte{5}
 		prm.RecvMax = []uint16{1, 2, 0}
+		prm.NLPct = 0 // (No Local on overlapping subscriptions is a recorded finding of its own; a held-back expectation would hide its one-time flag)
 		prm.W["hold"], prm.W["publish"] = 6, 16
 		hrm := *h
 		hrm.Profile, hrm.N, hrm.Label = prm, (per+1)/2, 2100+uint64(bi)
